@@ -173,7 +173,8 @@ func subPartition(p *partitions, group int) {
 		// the same inputs, we need to differentiate 1 from 2 at code generation.
 		if first.Accept {
 			assert.True(s.Accept)
-			if !acceptingNFAStates(first).Equal(acceptingNFAStates(s)) {
+			if !acceptingNFAStates(first).Equal(acceptingNFAStates(s)) ||
+				first.NonGreedy != s.NonGreedy {
 				move.Add(s)
 				return
 			}
